@@ -29,3 +29,21 @@ Theorem C04_concat : forall p r Bp B0, md (run p) = Out -> ic_rev (run p) = [] -
   split_raw (p ++ c_nl :: c_at :: r) = Blocks (Bp ++ map (shiftb (count_nl p + 1)) B0).
 Proof. exact concat'. Qed.
 Print Assumptions C04_concat.
+
+(* ---- the same three statements over the dialect grammar (Model/Grammar.v): "a well-formed document ending in a
+   complete block" (ends_in_block) and "a line starting with a well-formed block" (starts_with_block) discharge the
+   machine-state hypotheses above; duplicate field names allowed (expected_dup) *)
+From BP Require Import Model.Grammar Proofs.GrammarCorollaries.
+Theorem C04_doc_prefix_stable : forall d, wf_doc d -> ends_in_block d ->
+  forall x, exists rest, split_raw (render d ++ x) = Blocks (expected_dup d ++ rest).
+Proof. exact C04_doc_prefix_stable_dup. Qed.
+Print Assumptions C04_doc_prefix_stable.
+
+Theorem C04_doc_concat : forall d1 d2, wf_doc d1 -> ends_in_block d1 -> wf_doc d2 -> starts_with_block d2 ->
+  split_raw (render d1 ++ c_nl :: render d2) = Blocks (expected_dup d1 ++ map (shiftb (count_nl (render d1) + 1)) (expected_dup d2)).
+Proof. exact C04_doc_concat_dup. Qed.
+Print Assumptions C04_doc_concat.
+
+Theorem C04_doc_ends_closed : forall d, wf_doc d -> ends_in_block d -> md (run (render d)) = Out /\ ic_rev (run (render d)) = [].
+Proof. exact doc_ends_closed. Qed.
+Print Assumptions C04_doc_ends_closed.
